@@ -97,6 +97,8 @@ package dtls
 //    identifier is in neither table any more ("an accept that is cancelled leaves nothing registered").
 //@ func (l *Listener) acceptDTLSConn(ctx context.Context, config *Config) (net.Conn, error)
 //@   requires l != nil && config != nil && ctx != nil && l.connToCert != nil && l.connMap != nil && !held(&l.connToCertMutex) && !held(&l.connMapMutex)
+// (a cancelled accept returns: its only blocking channel operation is a select with an arm on ctx.Done())
+//@   cancellable @C16: ctx
 //@   atcall registerCert after: snap certErr := res
 //@   atcall registerChannel before: assert @C16: arg1 == connID && defined(certErr) && certErr == nil
 //@   atcall registerChannel after: snap chanErr := res1
